@@ -121,6 +121,8 @@ def _judge_files(files, res, v, cov, label):
             key = _key(b["broken"], b["diff"], b["cls"], b["pred"]["rung"])
             cov.setdefault("bad_by_key", {}).setdefault(key, 0)
             cov["bad_by_key"][key] += 1
+            cov.setdefault("tv_bad_by_key", {}).setdefault(key, 0)
+            cov["tv_bad_by_key"][key] += 1
             v.violation(key, "%s: %s; C20 conditions broken: %s; differs from the model in: %s (model: %s)" % (
                 label, _describe(run, ev[i]), b["broken"] or "-", b["diff"] or "-",
                 {k: b["pred"][k] for k in ("rung", "nf", "match", "bar", "total", "full", "w", "pct", "pfx")}),
@@ -197,7 +199,7 @@ def run(tier, v):
 
     # 2. impl -> spec
     out = os.path.join(vlib.scratch(), "c20tv")
-    params = ({"colstride": 5, "namestride": 8, "random": 400, "seqsample": True, "probes": 6, "probetimeout": 3}
+    params = ({"colstride": 7, "namestride": 10, "random": 300, "seqsample": True, "probes": 6, "probetimeout": 3}
               if quick else
               {"colstride": 1, "namestride": 2, "random": 6000, "seqsample": False, "probes": 24, "probetimeout": 5})
     parts = 4 if quick else 8
@@ -306,6 +308,8 @@ def run(tier, v):
             key = _key(broken, diff, c["exp"]["cls"], c["exp"]["rung"])
             cov.setdefault("bad_by_key", {}).setdefault(key, 0)
             cov["bad_by_key"][key] += 1
+            cov.setdefault("mbt_bad_by_key", {}).setdefault(key, 0)
+            cov["mbt_bad_by_key"][key] += 1
             v.violation(key, "model case not reproduced: columns=%s pane=%s count=%s name=%r onSize(%s) onStep(%s) after %s ms -> %s; broken: %s; differs in: %s (model: %s)" % (
                 c["cols"], c["pane"], c["count"], rr.get("name", "")[:40], vlib_num(w["size"]), vlib_num(w["step"]), w["el"],
                 {k: rr["obs"][k] for k in ("res", "msg", "nf", "match", "bar", "total", "full", "w", "pct", "pfx")},
